@@ -274,12 +274,6 @@ theorem harvestAll_exhausted_iff (P : Frame → Resp) (is : List Iss) (st : CSt)
     | stop held st' => simp
     | raise e st' => simp
 
-/-- how the consumer sees the end of `harvest` in (the repaired) `synchronous` and in `pipeline` -/
-def endOfH : HEnd → End
-  | .exhausted => .ok
-  | .stopped _ => .error .incomplete
-  | .raised e => .error e
-
 theorem synchronous_fst (P : Frame → Resp) (is : List Iss) (st : CSt) :
     (synchronous P is st).1 = (harvestAll P is st).1 := by
   unfold synchronous; rcases harvestAll P is st with ⟨rs, e, s⟩; cases e <;> rfl
@@ -496,6 +490,82 @@ theorem harvestAll_cut (P : Frame → Resp) (closed : Bool) (is : List Iss) :
           rw [hn, hemp]
           by_cases hk0 : k = 0 <;> cases closed <;> simp [cutEnd, hk0]
 
+/-- the general form of `harvestAll_cut`: no assumption that the replies answer the requests -/
+theorem harvestAll_cut_zip (P : Frame → Resp) (closed : Bool) (is : List Iss) :
+    ∀ (fs : List Frame) (k : Nat) (pend : List Col), Served P fs →
+      (harvestAll P is { pend := pend, buf := (stream fs).take k, evs := [termEv closed] }).1 =
+        (zipSpec is (pend ++ (fs.take (whole k fs)).flatMap (colsOf P)) (cutEnd closed (leftover k fs))).1 ∧
+      (harvestAll P is { pend := pend, buf := (stream fs).take k, evs := [termEv closed] }).2.1 =
+        (zipSpec is (pend ++ (fs.take (whole k fs)).flatMap (colsOf P)) (cutEnd closed (leftover k fs))).2 := by
+  induction is with
+  | nil => intro fs k pend _; simp [harvestAll, zipSpec]
+  | cons i is ih =>
+    intro fs k pend hs
+    cases pend with
+    | cons c cs =>
+      obtain ⟨h1, h2⟩ := ih fs k cs hs
+      by_cases hmc : Matches i c
+      · simp only [harvestAll, harvestNext, collectNext, hmc, if_true, List.cons_append, zipSpec]
+        simp only [h1, h2, mkRes, and_self]
+      · simp [harvestAll, harvestNext, collectNext, hmc, zipSpec]
+    | nil =>
+      cases fs with
+      | nil =>
+        obtain ⟨st', hn⟩ := harvestNext_cut_none P i [] closed takeFrame_nil
+        simp only [stream, List.flatMap_nil, List.take_nil]
+        unfold harvestAll
+        rw [hn]
+        simp [leftover, cutEnd, zipSpec]
+      | cons f fs =>
+        obtain ⟨hwf, hrep⟩ := hs f (by simp)
+        obtain ⟨ctx, r, rs, hP⟩ := hasReplies_iff.mp hrep
+        have hs' : Served P fs := fun g hg => hs g (by simp [hg])
+        by_cases hk : (encodeFrame f).length ≤ k
+        · have hw : whole k (f :: fs) = whole (k - (encodeFrame f).length) fs + 1 := by simp [whole, hk]
+          have hl : leftover k (f :: fs) = leftover (k - (encodeFrame f).length) fs := by simp [leftover, hk]
+          have hc : colsOf P f = (ctx, r) :: rs.map fun x => (ctx, x) := by simp [colsOf, hP]
+          have havail : ([] : List Col) ++ ((f :: fs).take (whole k (f :: fs))).flatMap (colsOf P) =
+              (ctx, r) :: ((rs.map fun x => (ctx, x)) ++
+                (fs.take (whole (k - (encodeFrame f).length) fs)).flatMap (colsOf P)) := by
+            rw [hw]; simp [hc]
+          rw [havail, hl]
+          obtain ⟨h1, h2⟩ := ih fs (k - (encodeFrame f).length) (rs.map fun x => (ctx, x)) hs'
+          have haw : await ((stream (f :: fs)).take k) [termEv closed] =
+              (.frame f, (stream fs).take (k - (encodeFrame f).length), [termEv closed]) := by
+            rw [take_stream_ge f fs k hk]
+            exact await_nodata _ _ f _ (takeFrame_encode f hwf _)
+          by_cases hmc : Matches i (ctx, r)
+          · simp only [harvestAll, harvestNext, collectNext, haw, hP, hmc, if_true, zipSpec]
+            simp only [h1, h2, mkRes, and_self]
+          · simp [harvestAll, harvestNext, collectNext, haw, hP, hmc, zipSpec]
+        · have hw : whole k (f :: fs) = 0 := by simp [whole, hk]
+          have hl : leftover k (f :: fs) = k := by simp [leftover, hk]
+          have htf : takeFrame ((stream (f :: fs)).take k) = none := by
+            simp only [stream, List.flatMap_cons]
+            exact takeFrame_strict_prefix f hwf _ k (by omega)
+          have hlen : ((stream (f :: fs)).take k).length = k := by
+            simp only [stream, List.flatMap_cons, List.length_take, List.length_append]; omega
+          have hemp : ((stream (f :: fs)).take k).isEmpty = decide (k = 0) := by
+            rw [Bool.eq_iff_iff, List.isEmpty_iff_length_eq_zero, hlen]; simp
+          obtain ⟨st', hn⟩ := harvestNext_cut_none P i _ closed htf
+          rw [hw, hl]
+          unfold harvestAll
+          rw [hn, hemp]
+          by_cases hk0 : k = 0 <;> cases closed <;> simp [cutEnd, hk0, zipSpec]
+
+/-- when every reply answers its request, the zip pairs them all -/
+theorem zipSpec_allMatch (is : List Iss) (cs : List Col) (e : HEnd) (h : AllMatch is cs) :
+    zipSpec is cs e = ((is.zip cs).map mkRes, if is.length ≤ cs.length then .exhausted else e) := by
+  induction is generalizing cs with
+  | nil => simp [zipSpec]
+  | cons i is ih =>
+    cases cs with
+    | nil => simp [zipSpec]
+    | cons c cs =>
+      have hmc : Matches i c := h (i, c) (by simp)
+      have h' : AllMatch is cs := fun p hp => h p (by simp [hp])
+      simp [zipSpec, hmc, ih cs h']
+
 theorem mem_zip_append_left {α β : Type} (is : List α) (a b : List β) (p : α × β) (h : p ∈ is.zip a) :
     p ∈ is.zip (a ++ b) := by
   induction is generalizing a with
@@ -544,6 +614,57 @@ theorem synchronous_cut (P : Frame → Resp) (closed : Bool) (is : List Iss) (fs
     by_cases hl0 : leftover k fs = 0
     · simp [hl0]
     · cases closed <;> simp [hl0]
+
+/-- the general form of `synchronous_cut`: any well-formed frames (in order or not), any segmentation -/
+theorem synchronous_cut_zip (P : Frame → Resp) (closed : Bool) (is : List Iss) (fs : List Frame) (k : Nat)
+    (st : CSt) (hst : flat st = flat (cutState fs k closed)) (hs : Served P fs) :
+    (synchronous P is st).1 =
+      (zipSpec is ((fs.take (whole k fs)).flatMap (colsOf P)) (cutEnd closed (leftover k fs))).1 ∧
+    (synchronous P is st).2.1 =
+      endOfH (zipSpec is ((fs.take (whole k fs)).flatMap (colsOf P)) (cutEnd closed (leftover k fs))).2 := by
+  obtain ⟨h1, h2⟩ := harvestAll_cut_zip P closed is fs k [] hs
+  obtain ⟨c1, c2⟩ := harvestAll_congr P is st (cutState fs k closed) hst
+  simp only [List.nil_append] at h1 h2
+  unfold cutState at c1 c2
+  rw [synchronous_fst, synchronous_end, c1, c2, h1, h2]
+  exact ⟨rfl, rfl⟩
+
+/-- a reply that does not answer the next request (one was lost, overtaken or duplicated) ends the stream with
+`mismatch` right there: everything before it is paired, nothing after it is -/
+theorem zipSpec_first_mismatch (is₁ : List Iss) (cs₁ : List Col) (i : Iss) (c : Col) (is₂ : List Iss)
+    (cs₂ : List Col) (e : HEnd) (h : AllMatch is₁ cs₁) (hl : is₁.length = cs₁.length) (hn : ¬ Matches i c) :
+    zipSpec (is₁ ++ i :: is₂) (cs₁ ++ c :: cs₂) e = ((is₁.zip cs₁).map mkRes, .raised .mismatch) := by
+  induction is₁ generalizing cs₁ with
+  | nil =>
+    cases cs₁ with
+    | nil => simp [zipSpec, hn]
+    | cons _ _ => simp at hl
+  | cons j js ih =>
+    cases cs₁ with
+    | nil => simp at hl
+    | cons d ds =>
+      have hm : Matches j d := h (j, d) (by simp)
+      have h' : AllMatch js ds := fun p hp => h p (by simp [hp])
+      simp only [List.length_cons, Nat.add_right_cancel_iff] at hl
+      simp [zipSpec, hm, ih ds h' hl]
+
+/-- … and when the lost reply was the last one, the stream ends as the connection does -/
+theorem zipSpec_short (is₁ : List Iss) (cs₁ : List Col) (i : Iss) (is₂ : List Iss) (e : HEnd)
+    (h : AllMatch is₁ cs₁) (hl : is₁.length = cs₁.length) :
+    zipSpec (is₁ ++ i :: is₂) cs₁ e = ((is₁.zip cs₁).map mkRes, e) := by
+  induction is₁ generalizing cs₁ with
+  | nil =>
+    cases cs₁ with
+    | nil => simp [zipSpec]
+    | cons _ _ => simp at hl
+  | cons j js ih =>
+    cases cs₁ with
+    | nil => simp at hl
+    | cons d ds =>
+      have hm : Matches j d := h (j, d) (by simp)
+      have h' : AllMatch js ds := fun p hp => h p (by simp [hp])
+      simp only [List.length_cons, Nat.add_right_cancel_iff] at hl
+      simp [zipSpec, hm, ih ds h' hl]
 
 /-! ### the whole stream delivered -/
 
